@@ -26,6 +26,19 @@ def innermost_pyhf_frame(exc):
     return where
 
 
+def raised_inside_pyhf(exc):
+    """(file, function) of the innermost pyhf frame if no frame of the verification code lies deeper than it,
+    i.e. the exception was raised by pyhf (or a library it called), not by the harness; else None."""
+    last_pyhf, last_verif, where = -1, -1, None
+    for i, fs in enumerate(traceback.extract_tb(exc.__traceback__)):
+        fn = fs.filename.replace("\\", "/")
+        if "/pyhf/" in fn:
+            last_pyhf, where = i, (fn.split("/pyhf/", 1)[1], fs.name)
+        elif "/verif/" in fn or "/props/" in fn or "/vlib/" in fn:
+            last_verif = i
+    return where if last_pyhf > last_verif else None
+
+
 class Discard(Exception):
     """Raised by a property function to drop a case (counted, never a violation)."""
 
